@@ -224,14 +224,18 @@ func (v *value) Import(val interface{}) error {
 		return nil
 	}
 
-	if value, ok := val.(Value); ok {
+	if r, isRow := val.(Row); isRow {
+		// a nested object never changes the format of the column: it is kept as it is by Auto and
+		// Hidden columns, and converted (hence rejected) like any other value by the other formats
+		if v.f == Auto || v.f == Hidden {
+			v.raw = r
+
+			return nil
+		}
+	} else if value, ok := val.(Value); ok {
 		v.f = value.GetFormat()
 		v.raw = value.Raw()
 		v.typ = value.GetRawType()
-
-		if r, isRow := val.(Row); isRow {
-			v.raw = r
-		}
 
 		return nil
 	}
